@@ -1073,3 +1073,323 @@ def start_stage():
 
 
 ALL.append(start_stage)
+
+
+# ----------------------------------------------------------------------------- SkipStage / CancelStage
+def _stage_guard(pred_names, negate=False):
+    """acts (store, push other than Invalid*, event) only if the loaded stage status is in / not in pred_names."""
+    def check(ctx):
+        I = ctx.I
+        stage = loaded_stage(ctx)
+        if stage is None:
+            return []
+        lds = T.loaded_info(I, stage)["status"].t
+        acts = [e for e, _ in T.flat(ctx.st.effects) if e.kind in ("store_stage", "event", "standalone", "queue_push", "user_code")
+                or (e.kind == "push" and not e.data["cls"].startswith("Invalid"))]
+        if not acts:
+            return []
+        g = in_set(lds, I, pred_names)
+        return [("", z3.Not(g) if negate else g)]
+    return check
+
+
+def _continuation_after(status_names):
+    """T2: the commit that stores the stage in one of `status_names` pushes a continuation (downstream StartStage,
+    ContinueParentStage or CompleteWorkflow) -- except for a synthetic stage without parent id (data inconsistency)."""
+    def check(ctx):
+        I = ctx.I
+        goals = []
+        for t in P.committed_txns(ctx):
+            ss = _addressed_stage_stores(ctx, t)
+            if not ss:
+                continue
+            stage = ss[0][0].data["stage"]
+            ps = [b for e in t.effects for b, _ in T.flat([e]) if b.kind == "push"]
+            phase_set = z3.Not(I.ops.is_none(I.getattr(stage, "synthetic_stage_owner")))
+            no_parent = z3.Not(I.ops.truthy(I.getattr(stage, "parent_stage_id")))
+            if not ps:
+                goals.append((f"txn{t.tid}.continuation", z3.And(phase_set, no_parent)))
+            else:
+                goals.append((f"txn{t.tid}.kinds", z3.BoolVal(all(p.data["cls"] in ("StartStage", "ContinueParentStage", "CompleteWorkflow") for p in ps))))
+            goals.append((f"txn{t.tid}.status", in_set(ss[0][0].data["snap"]["status"].t, I, status_names)))
+        return goals
+    return check
+
+
+def _events_inside(kinds):
+    def check(ctx):
+        evs = [e for e in ctx.st.effects if e.kind == "event" and e.data["kind"] in kinds]
+        return [(f"event{n}.inside-txn", z3.BoolVal(e.data.get("in_txn") is not None)) for n, e in enumerate(evs)]
+    return check
+
+
+def skip_stage():
+    obls = [
+        Obl("C02/guard/SkipStage", _stage_guard(("NOT_STARTED",)), when="any"),
+        Obl("C10/absorb/SkipStage", _stage_guard(("NOT_STARTED",)), when="any"),
+        Obl("C01/T1/SkipStage", P.t1_processed_with_effects(), when="any"),
+        Obl("C02/T1/SkipStage", P.t1_processed_with_effects(), when="any"),
+        Obl("C09/T1/SkipStage", P.t1_processed_with_effects(), when="any"),
+        Obl("C01/T6/SkipStage", P.t6_single_commit(), when="any"),
+        Obl("C01/T7/SkipStage", P.t7_no_split, when="any"),
+        Obl("C05/T2/SkipStage", _continuation_after(("SKIPPED",)), when="any"),
+        Obl("C03/push/SkipStage", _continuation_after(("SKIPPED",)), when="any"),
+        Obl("C05/T2b/SkipStage", P.no_push_after_commit, when="any"),
+        Obl("C06/T3/SkipStage", P.t3_legal_write(), when="any"),
+        Obl("C13/T4/SkipStage", _events_inside(("record_stage_skipped",)), when="any"),
+    ]
+    return handler_unit("*", "L2/SkipStage", H + "skip_stage:SkipStageHandler", "SkipStage", obls, registry=run_task_registry())
+
+
+def _cancel_stage_post(ctx):
+    """C17: a non-complete stage is stored CANCELED with every NOT_STARTED/RUNNING task CANCELED and every other task
+    unchanged, in one transaction with the mark; nothing is pushed."""
+    I = ctx.I
+    goals = []
+    for n, (e, g) in enumerate(P.stores(ctx)):
+        ld, snap = e.data["loaded"], e.data["snap"]
+        goals.append((f"store{n}.stage-canceled", snap["status"].t == status(I, "CANCELED")))
+        i = fresh_int("ti")
+        li, si = z3.Select(ld["task_status"], i), z3.Select(snap["task_status"], i)
+        rng = z3.And(i >= 0, i < snap["task_len"])
+        goals.append((f"store{n}.live-tasks-canceled", z3.Implies(z3.And(rng, in_set(li, I, ("NOT_STARTED", "RUNNING"))), si == status(I, "CANCELED"))))
+        goals.append((f"store{n}.other-tasks-unchanged", z3.Implies(z3.And(rng, z3.Not(in_set(li, I, ("NOT_STARTED", "RUNNING")))), si == li)))
+    ps = [e for e, _ in T.flat(ctx.st.effects) if e.kind in ("push", "queue_push") and not e.data["cls"].startswith("Invalid")]
+    goals.append(("no-push", z3.BoolVal(not ps)))
+    return goals
+
+
+def cancel_stage_registry():
+    reg = run_task_registry()
+    reg.contracts["stabilize.resilience.cancellation:cancel_task"] = lambda I, a, k: SNone
+    return reg
+
+
+def cancel_stage():
+    complete = ("SUCCEEDED", "FAILED_CONTINUE", "SKIPPED", "TERMINAL", "CANCELED", "STOPPED")
+    obls = [
+        Obl("C02/guard/CancelStage", _stage_guard(complete, negate=True), when="any"),
+        Obl("C10/absorb/CancelStage", _stage_guard(complete, negate=True), when="any"),
+        Obl("C17/cancel-stage", _cancel_stage_post, when="any"),
+        Obl("C01/T1/CancelStage", P.t1_processed_with_effects(), when="any"),
+        Obl("C02/T1/CancelStage", P.t1_processed_with_effects(), when="any"),
+        Obl("C09/T1/CancelStage", P.t1_processed_with_effects(), when="any"),
+        Obl("C01/T6/CancelStage", P.t6_single_commit(), when="any"),
+        Obl("C01/T7/CancelStage", P.t7_no_split, when="any"),
+        Obl("C06/T3/CancelStage", P.t3_legal_write(), when="any"),
+        Obl("C18/only-signal-wakes/CancelStage", _cancel_stage_post, when="any"),
+    ]
+    return handler_unit("*", "L2/CancelStage", H + "cancel_stage:CancelStageHandler", "CancelStage", obls, registry=cancel_stage_registry())
+
+
+ALL += [skip_stage, cancel_stage]
+
+
+# ----------------------------------------------------------------------------- workflow control
+WC = H + "workflow_control:"
+COMPLETE = ("SUCCEEDED", "FAILED_CONTINUE", "SKIPPED", "TERMINAL", "CANCELED", "STOPPED")
+
+
+def _cancel_workflow_post(ctx):
+    """C17: for an execution that is not complete: the cancel flag is persisted (standalone, idempotent) and ONE
+    transaction marks the message, pushes CancelStage for EVERY top-level stage whose loaded status is not complete,
+    and pushes one CompleteWorkflow.  For a complete execution: mark only."""
+    I = ctx.I
+    ex = loaded_execution(ctx)
+    if ex is None or ctx.exc is not None:
+        return []
+    lds = T.loaded_info(I, ex)["status"].t
+    goals = []
+    txns = [t for t in P.committed_txns(ctx)]
+    pushes_ = [b for t in txns for e in t.effects for b, _ in T.flat([e]) if b.kind == "push"]
+    cancels = [e for e in ctx.st.effects if e.kind == "standalone" and e.data["op"] == "cancel"]
+    if not pushes_:
+        goals.append(("mark-only-when-complete", z3.And(is_complete(I, lds), z3.BoolVal(not cancels))))
+        return goals
+    goals.append(("not-complete", z3.Not(is_complete(I, lds))))
+    goals.append(("flag-persisted-once-before-txn", z3.BoolVal(len(cancels) == 1 and ctx.st.effects.index(cancels[0]) <
+                                                               min(i for i, e in enumerate(ctx.st.effects) if e.kind == "txn_begin"))))
+    goals.append(("one-txn", z3.BoolVal(len([t for t in txns if P._has_write(t)]) == 1)))
+    cw = [p for p in pushes_ if p.data["cls"] == "CompleteWorkflow"]
+    goals.append(("one-complete-workflow", z3.BoolVal(len(cw) == 1)))
+    stages = I.getattr(ex, "stages")
+    fe = [e for t in txns for e in t.effects if e.kind == "foreach" and e.data["lid"] == stages.lid
+          and any(b.kind == "push" and b.data["cls"] == "CancelStage" for b in e.data["body"])]
+    j = fresh_int("sj")
+    n = I.ops.list_len(stages)
+    stt = z3.Select(I._elem_array(stages.lid, "status", I.typer.sort_of(("enum", WS))), j)
+    top = z3.Select(I._elem_array(stages.lid, "parent_stage_id?", z3.BoolSort()), j)
+    covered = z3.Or(*[z3.And(j < e.data["hi"], z3.substitute(e.data["cond"], (e.data["g"], j))) for e in fe]) if fe else FALSE
+    goals.append(("every-unfinished-top-level-stage", z3.Implies(z3.And(j >= 0, j < n, top, z3.Not(is_complete(I, stt))), covered)))
+    for k_, e in enumerate(fe):
+        b = [x for x in e.data["body"] if x.kind == "push"][0]
+        sid = I.getattr(b.data["msg"], "stage_id")
+        ids = I._elem_array(stages.lid, "id", z3.IntSort())
+        goals.append((f"cancel{k_}.addresses-that-stage", sid.t == z3.Select(ids, e.data["g"])))
+    return goals
+
+
+def cancel_workflow():
+    obls = [
+        Obl("C17/cancel-workflow", _cancel_workflow_post, when="any"),
+        Obl("C01/RES/CancelWorkflow", _cancel_workflow_post, when="any"),
+        Obl("C01/T1/CancelWorkflow", P.t1_processed_with_effects(), when="any"),
+        Obl("C02/T1/CancelWorkflow", P.t1_processed_with_effects(), when="any"),
+        Obl("C09/T1/CancelWorkflow", P.t1_processed_with_effects(), when="any"),
+        Obl("C01/T7/CancelWorkflow", P.t7_no_split, when="any"),
+        Obl("C06/T3/CancelWorkflow", P.t3_legal_write(), when="any"),
+    ]
+    return handler_unit("*", "L2/CancelWorkflow", WC + "CancelWorkflowHandler", "CancelWorkflow", obls, registry=run_task_registry())
+
+
+def _rearm_allowed(ctx, e, cur, new):
+    # RestartStage is one of the two explicit re-arm sites of C06: any status -> NOT_STARTED for stage and tasks
+    return new == status(ctx.I, "NOT_STARTED")
+
+
+def _restart_post(ctx):
+    """RestartStage re-arms only a complete stage of an execution that is not canceled; stores it NOT_STARTED together
+    with the mark and a StartStage for it."""
+    I = ctx.I
+    goals = []
+    for n, (e, g) in enumerate(P.stores(ctx)):
+        ld, snap = e.data["loaded"], e.data["snap"]
+        goals.append((f"store{n}.was-complete", is_complete(I, ld["status"].t)))
+        goals.append((f"store{n}.not-started", snap["status"].t == status(I, "NOT_STARTED")))
+        ex = I.getattr(e.data["stage"], "execution")
+    for t in P.committed_txns(ctx):
+        if any(x.kind == "store_stage" for x in t.effects):
+            ps = txn_pushes(t)
+            goals.append((f"txn{t.tid}.start-stage", z3.BoolVal(len(ps) == 1 and ps[0].data["cls"] == "StartStage")))
+    return goals
+
+
+def restart_stage():
+    obls = [
+        Obl("C06/rearm/RestartStage", _restart_post, when="any"),
+        Obl("C06/T3/RestartStage", P.t3_legal_write(allow=_rearm_allowed), when="any"),
+        Obl("C01/T1/RestartStage", P.t1_processed_with_effects(), when="any"),
+        Obl("C09/T1/RestartStage", P.t1_processed_with_effects(), when="any"),
+        Obl("C01/T6/RestartStage", P.t6_single_commit(), when="any"),
+        Obl("C01/T7/RestartStage", P.t7_no_split, when="any"),
+    ]
+    return handler_unit("*", "L2/RestartStage", WC + "RestartStageHandler", "RestartStage", obls, registry=run_task_registry())
+
+
+def resume_stage():
+    obls = [
+        Obl("C02/guard/ResumeStage", _stage_guard(("PAUSED",)), when="any"),
+        Obl("C06/T3/ResumeStage", P.t3_legal_write(), when="any"),
+        Obl("C01/T1/ResumeStage", P.t1_processed_with_effects(), when="any"),
+        Obl("C09/T1/ResumeStage", P.t1_processed_with_effects(), when="any"),
+        Obl("C01/T6/ResumeStage", P.t6_single_commit(), when="any"),
+        Obl("C01/T7/ResumeStage", P.t7_no_split, when="any"),
+    ]
+    return handler_unit("*", "L2/ResumeStage", WC + "ResumeStageHandler", "ResumeStage", obls, registry=run_task_registry())
+
+
+def pause_task():
+    obls = [
+        Obl("C06/T3/PauseTask", P.t3_legal_write(), when="any"),
+        Obl("C01/T1/PauseTask", P.t1_processed_with_effects(), when="any"),
+        Obl("C09/T1/PauseTask", P.t1_processed_with_effects(), when="any"),
+        Obl("C01/T6/PauseTask", P.t6_single_commit(), when="any"),
+        Obl("C01/T7/PauseTask", P.t7_no_split, when="any"),
+    ]
+    return handler_unit("*", "L2/PauseTask", WC + "PauseTaskHandler", "PauseTask", obls, registry=run_task_registry())
+
+
+ALL += [cancel_workflow, restart_stage, resume_stage, pause_task]
+
+
+# ----------------------------------------------------------------------------- SignalStage
+def _ctx_key(ctx, arr_has, arr_vals, name):
+    k = ctx.I.ops.lit(name).t
+    return z3.Select(arr_has, k), z3.Select(arr_vals, k)
+
+
+def _signal_post(ctx):
+    """C18: the three cases of a signal.
+    suspended  -> one transaction: stage RUNNING, the first SUSPENDED task RUNNING (others unchanged), _signal_name /
+                  _signal_data stored, mark, exactly one push (RunTask for that task, or StartStage if there is none);
+    otherwise, persistent -> one transaction: status unchanged, _buffered_signals' = old ++ [signal], mark, no push;
+    otherwise, transient  -> nothing but the mark."""
+    from pyvc.values import VAL, vlist_get, vlist_len, vdict_get, vdict_has
+
+    I = ctx.I
+    stage = loaded_stage(ctx)
+    if stage is None or ctx.exc is not None:
+        return []
+    msg = ctx.extra["message"]
+    ld = T.loaded_info(I, stage)
+    lds = ld["status"].t
+    susp = lds == status(I, "SUSPENDED")
+    persistent = I.ops.truthy(I.getattr(msg, "persistent"))
+    ss = P.stores(ctx)
+    ps = [e for e, _ in T.flat(ctx.st.effects) if e.kind == "push" and not e.data["cls"].startswith("Invalid")]
+    goals = []
+    if not ss:
+        goals.append(("dropped-only-when-transient-and-not-suspended", z3.And(z3.Not(susp), z3.Not(persistent))))
+        goals.append(("dropped-pushes-nothing", z3.BoolVal(not ps)))
+        return goals
+    goals.append(("one-store", z3.BoolVal(len(ss) == 1)))
+    e = ss[0][0]
+    snap = e.data["snap"]
+    i = fresh_int("ti")
+    li, si = z3.Select(ld["task_status"], i), z3.Select(snap["task_status"], i)
+    rng = z3.And(i >= 0, i < snap["task_len"])
+    if ps:
+        goals.append(("resumes-only-suspended", susp))
+        goals.append(("stage-running", snap["status"].t == status(I, "RUNNING")))
+        goals.append(("one-push", z3.BoolVal(len(ps) == 1)))
+        hn, vn = _ctx_key(ctx, snap["ctx_has"], snap["ctx_vals"], "_signal_name")
+        goals.append(("signal-name-stored", z3.And(hn, vn == I.ops.to_val(I.getattr(msg, "signal_name")))))
+        hd, vd = _ctx_key(ctx, snap["ctx_has"], snap["ctx_vals"], "_signal_data")
+        goals.append(("signal-data-stored", hd))
+        p = ps[0]
+        if p.data["cls"] == "RunTask":
+            w = found_task_index(ctx, stage)
+            ids = I._elem_array(I.getattr(stage, "tasks").lid, "id", z3.IntSort())
+            goals.append(("first-suspended-task", z3.And(z3.Select(ld["task_status"], w) == status(I, "SUSPENDED"),
+                                                        I.getattr(p.data["msg"], "task_id").t == z3.Select(ids, w),
+                                                        z3.Implies(z3.And(rng, i < w), li != status(I, "SUSPENDED")))))
+            goals.append(("that-task-running", z3.Select(snap["task_status"], w) == status(I, "RUNNING")))
+            goals.append(("other-tasks-unchanged", z3.Implies(z3.And(rng, i != w), si == li)))
+        elif p.data["cls"] == "StartStage":
+            goals.append(("no-suspended-task", z3.Implies(rng, li != status(I, "SUSPENDED"))))
+            goals.append(("tasks-unchanged", z3.Implies(rng, si == li)))
+        else:
+            goals.append(("push-kind", FALSE))
+    else:
+        goals.append(("buffers-only-persistent-on-not-suspended", z3.And(z3.Not(susp), persistent)))
+        goals.append(("status-unchanged", snap["status"].t == lds))
+        goals.append(("tasks-unchanged", z3.Implies(rng, si == li)))
+        ho, vo = _ctx_key(ctx, ld["ctx_has"], ld["ctx_vals"], "_buffered_signals")
+        hn, vn = _ctx_key(ctx, snap["ctx_has"], snap["ctx_vals"], "_buffered_signals")
+        old_len = z3.If(ho, vlist_len(VAL.vl(vo)), 0)
+        nl = VAL.vl(vn)
+        goals.append(("buffer-grows-by-one", z3.And(hn, VAL.is_VList(vn), vlist_len(nl) == old_len + 1)))
+        last = vlist_get(nl, old_len)
+        nm = I.ops.lit("signal_name").t
+        goals.append(("last-is-this-signal", z3.And(VAL.is_VDict(last), vdict_has(VAL.vd(last), nm),
+                                                    vdict_get(VAL.vd(last), nm) == I.ops.to_val(I.getattr(msg, "signal_name")))))
+        goals.append(("earlier-entries-kept", z3.Implies(z3.And(ho, i >= 0, i < old_len), vlist_get(nl, i) == vlist_get(VAL.vl(vo), i))))
+    return goals
+
+
+def signal_stage():
+    obls = [
+        Obl("C18/signal", _signal_post, when="any"),
+        Obl("C18/T1/SignalStage", P.t1_processed_with_effects(), when="any"),
+        Obl("C01/T1/SignalStage", P.t1_processed_with_effects(), when="any"),
+        Obl("C09/T1/SignalStage", P.t1_processed_with_effects(), when="any"),
+        Obl("C18/T6/SignalStage", P.t6_single_commit(), when="any"),
+        Obl("C01/T6/SignalStage", P.t6_single_commit(), when="any"),
+        Obl("C01/T7/SignalStage", P.t7_no_split, when="any"),
+        Obl("C06/T3/SignalStage", P.t3_legal_write(), when="any"),
+        Obl("C18/only-signal-wakes/SignalStage", P.t3_legal_write(), when="any"),
+    ]
+    return handler_unit("*", "L2/SignalStage", H + "signal_stage:SignalStageHandler", "SignalStage", obls, registry=run_task_registry())
+
+
+ALL.append(signal_stage)
